@@ -7,7 +7,9 @@ PROPERTY = 'C04'
 FUNCTIONS_ENCODED = K.FUNCTIONS_ENCODED
 BOUNDS = {
     'quick': 'components A and B of 2 atoms each (symbolic adjacency and per-(pattern, atom) match flags, 2 patterns, optional '
-             'remap rules, two correction patterns sharing one descriptor name with symbolic matches per component); the pair is their disjoint union with B shifted',
+             'remap rules, two correction patterns sharing one descriptor name with symbolic matches per component; the same with the correction '
+             'descriptor carrying the name of a group); the pair is their disjoint union with B shifted; ring pretreatment: a ring of 3/5/6/7 atoms '
+             '(optionally with an oxygen, alternating or single bonds) next to a carbon 6-ring (alternating or single), either perception order',
     'thorough': 'A and B of 2 atoms, 3 patterns',
 }
 STUBS = K.STUBS
@@ -48,7 +50,7 @@ def h_mixture(d: bool):
                 if which in ('B', 'U') and dB[k]:
                     ms.append((off_b + 0, off_b + 1))
                 return ms
-            out.append({'name': 'Corr', 'connectivity': K.FakePattern(fn)})
+            out.append({'name': PARAM.get('corr_name', 'Corr'), 'connectivity': K.FakePattern(fn)})
         return out
     rA = K.run_scheme(K.make_scheme(P, lambda m, p, a: flA[p][a], remaps=remaps, other=other('A', 0, 0)), K.make_mol(na, adjA))
     rB = K.run_scheme(K.make_scheme(P, lambda m, p, a: flB[p][a], remaps=remaps, other=other('B', 0, 0)), K.make_mol(nb, adjB))
@@ -67,6 +69,64 @@ def h_mixture(d: bool):
                   sorted(rU[1].items()), sorted(want.items()))
 
 
+def _fx(name, n):
+    v = PARAM.get('fix', {}).get(name)
+    return v if v is not None else choose(name, n)
+
+
+def _ring_parts(size, hetero, phase, off):
+    """atoms, bonds and the ring tuple of one ring: `hetero` puts an oxygen at position 0; phase 0/1 = alternating
+    single/double starting with single/double, phase 2 = all single"""
+    rf = K.rf
+    S, D = rf.BondType.SINGLE, rf.BondType.DOUBLE
+    atoms = [rf.FAtom(8 if (hetero and k == 0) else 6) for k in range(size)]
+    bts = [S if phase == 2 else ((S, D)[(k + phase) % 2]) for k in range(size)]
+    bonds = [rf.FBond(off + k, off + (k + 1) % size, bts[k]) for k in range(size)]
+    return atoms, bonds, tuple(off + k for k in range(size))
+
+
+def _aromatise(atoms, bonds, rings):
+    rf, SC = K.rf, K.SC
+    mol = rf.FMol(atoms, bonds, rings=rings)
+    saved = SC.Chem
+    SC.Chem = rf.FakeChem()
+    try:
+        SC._aromatization_Benson(mol)
+    finally:
+        SC.Chem = saved
+    return mol
+
+
+def h_mixture_rings(d: bool):
+    """
+    post: _[0]
+    """
+    begin()
+    szA = [3, 5, 6, 7][_fx('szA', 4)]
+    hetA = bool(B('heteroA'))
+    phA = choose('phaseA', 3)
+    phB = choose('phaseB', 3)
+    order = _fx('order', 2)                 # which ring the perception lists first
+    from vf.symkit import NoTracing
+    with NoTracing():                       # concrete inputs from here on (see K.run_scheme)
+        try:
+            aA, bA, rA = _ring_parts(szA, hetA, phA, 0)
+            mA = _aromatise(aA, bA, [rA])
+            aB, bB, rB = _ring_parts(6, False, phB, 0)
+            mB = _aromatise(aB, bB, [rB])
+            uA, ubA, urA = _ring_parts(szA, hetA, phA, 0)
+            uB, ubB, urB = _ring_parts(6, False, phB, szA)
+            mU = _aromatise(uA + uB, ubA + ubB, [urA, urB] if order == 0 else [urB, urA])
+        except Exception as e:
+            return finish(False, 'raised:' + type(e).__name__)
+        sep = [(str(b.GetBondType()), bool(b.aromatic)) for b in mA.bonds] + [(str(b.GetBondType()), bool(b.aromatic)) for b in mB.bonds]
+        uni = [(str(b.GetBondType()), bool(b.aromatic)) for b in mU.bonds]
+        sepa = [bool(a.aromatic) for a in mA.atoms] + [bool(a.aromatic) for a in mB.atoms]
+        unia = [bool(a.aromatic) for a in mU.atoms]
+    return finish(sep == uni and sepa == unia, 'rings: aromatisation of two disconnected rings differs from that of each ring alone',
+                  szA, hetA, phA, phB, order)
+
+
 def signature(ob, param, ret):
     return 'mixture:%s' % (ret[1] if len(ret) > 1 else '')
 
@@ -81,6 +141,19 @@ def obligations(tier, seed):
             fix = dict(('Am_p%d_a0' % p, bool(bits >> p & 1)) for p in range(P))
             fix['Bm_p0_a0'] = bool(b2)
             obs.append(dict(name='mixture_f%d_%d' % (bits, b2), func='h_mixture', param=dict(na=na, nb=nb, P=P, fix=fix), timeout=to))
+    # a correction descriptor that carries the NAME OF A GROUP ('C': a centre without counted neighbours; GRWSurface2018 has such
+    # a pair, the group and the correction both called 'CC'): the counts under that name must still add up over the components
+    for bits in range(2 ** 2):
+        for b2 in range(2):
+            fix = dict(('Am_p%d_a0' % p, bool(bits >> p & 1)) for p in range(2))
+            fix['Bm_p0_a0'] = bool(b2)
+            obs.append(dict(name='mixture_samename_f%d_%d' % (bits, b2), func='h_mixture',
+                            param=dict(na=2, nb=2, P=2, fix=fix, corr_name='C'), timeout=to))
+    # ring pretreatment (Benson aromatisation) of two disconnected rings = that of each ring alone, in either ring order
+    for order in range(2):
+        for sz in range(4):
+            obs.append(dict(name='mixture_rings_o%d_z%d' % (order, sz), func='h_mixture_rings',
+                            param=dict(fix={'order': order, 'szA': sz}), timeout=to))
     return obs
 
 
@@ -120,4 +193,23 @@ def validate(tier, seed):
         entry['violation'] = [False, "descriptors of 'A.B' are not the sum", {'a': bad[0][0], 'b': bad[0][1]}]
         entry['func'] = 'concrete'
     res.append(entry)
+    # shipped name collision: GRWSurface2018 declares a group AND a correction descriptor called 'CC'
+    lib2 = GroupLibrary.Load('GRWSurface2018')
+    bad2, n2 = [], 0
+    for a, b in [('[C]$[C]', 'CC'), ('CC', '[C]$[C]'), ('[C]$[C]', 'CCC'), ('C1CC1', 'c1ccccc1'), ('C1CCCC1', 'c1ccccc1'),
+                 ('c1ccccc1', 'C1CC1'), ('C1CCOCC1', 'c1ccccc1')]:
+        da, db = dict(lib2.GetDescriptors(a)), dict(lib2.GetDescriptors(b))
+        want = dict(da)
+        for k, v in db.items():
+            want[k] = want.get(k, 0) + v
+        n2 += 1
+        if dict(lib2.GetDescriptors(a + '.' + b)) != want:
+            bad2.append((a, b))
+    entry2 = dict(name="GRWSurface2018 descriptors of 'A.B' = sum, incl. the group/correction pair both named 'CC' and ring "
+                       "pairs (real RDKit, concrete)", ok=True, n=n2, detail='%d differing: %r' % (len(bad2), bad2[:2]))
+    if bad2:
+        entry2['violation'] = [False, "descriptors of 'A.B' are not the sum",
+                               {'a': bad2[0][0], 'b': bad2[0][1], 'lib': 'GRWSurface2018'}]
+        entry2['func'] = 'concrete'
+    res.append(entry2)
     return res
